@@ -14,6 +14,17 @@ CHECKS = {
          "SMT-based bounded symbolic execution of Go SSA (z3), reference-recogniser oracle, native replay", "DESIGN.md §C18"),
 }
 
+CHECKS.update({
+ "C01": ("Bounded symbolic execution of the real level gate: LevelRange.Enable, sortByLevel (with the stable insertion-sort model of sort.Slice), SyncLogger.Append, AppenderRef.Append, the 15 entry points and record, with arbitrary int32 level codes for the logger range, 1..4 appender references (explicit or open-ended) and the event; oracle written from the statement (chained ranges).",
+         "SMT-based bounded symbolic execution of Go SSA (z3), statement-derived oracle, native replay", "DESIGN.md §C01"),
+ "C07": ("Bounded symbolic execution of the real JSON layout (field constructors, Any dispatch, Field.Encode, JSONEncoder, WriteLogString, JSONLayout.ToBytes) on generated events; the output is parsed by an independent RFC 8259 parser executed in the same engine and compared structurally with the logged data; numeric width fidelity of every Int/Uint/Float instantiation decided over full bit-vector ranges.",
+         "SMT-based bounded symbolic execution of Go SSA (z3), independent JSON parser oracle, native replay", "DESIGN.md §C07"),
+ "C08": ("Bounded symbolic execution of GetFileLine for an arbitrary 64-bit width and arbitrary file names, and of TextLayout.ToBytes differentially against the tokens of JSONLayout.ToBytes for the same generated event.",
+         "SMT-based bounded symbolic execution of Go SSA (z3), differential oracle (text vs JSON tokens), native replay", "DESIGN.md §C08"),
+ "C10": ("Bounded symbolic execution of the entry points and record with counting hooks and lazy generators: arbitrary int32 logger range and event level, all hook set/unset patterns; sync logger and built-in console logger.",
+         "SMT-based bounded symbolic execution of Go SSA (z3), counting-hook oracle, native replay", "DESIGN.md §C10"),
+})
+
 NA_DEFAULT = "check not built yet in this session (engine under construction); see DESIGN.md"
 NA = {}
 
